@@ -41,6 +41,14 @@ fn check(num: &Fq, den: &Fq, flag: bool, y: &Fq) -> bool {
     }
 }
 
+/// Set (Relaxed: creates no happens-before edge) by the first thread after its
+/// first call has returned; the last thread is a *late caller*: it waits for
+/// the flag and only then makes its own first call, so it finds the cells
+/// already initialised and takes whatever fast path the lazy cell has. With a
+/// correct cell that fast path synchronises with the initialiser; a cell that
+/// publishes with too weak an ordering is reported by Miri as a data race.
+static FIRST_CALL_DONE: std::sync::atomic::AtomicBool = std::sync::atomic::AtomicBool::new(false);
+
 fn main() {
     let args: Vec<String> = std::env::args().collect();
     let wseed: u64 = args.get(1).and_then(|s| s.parse().ok()).unwrap_or(1);
@@ -51,6 +59,11 @@ fn main() {
         let mut s = wseed ^ ((t as u64 + 1) << 32);
         handles.push(std::thread::spawn(move || {
             let mut out = Vec::new();
+            if t == threads - 1 && threads >= 2 {
+                while !FIRST_CALL_DONE.load(std::sync::atomic::Ordering::Relaxed) {
+                    std::thread::yield_now();
+                }
+            }
             for k in 0..ops {
                 let a = splitmix(&mut s);
                 let b = splitmix(&mut s);
@@ -75,6 +88,9 @@ fn main() {
                         }
                         out.push(format!("t{} decode {} {}", t, e[0], r.is_ok()));
                     }
+                }
+                if t == 0 {
+                    FIRST_CALL_DONE.store(true, std::sync::atomic::Ordering::Relaxed);
                 }
             }
             out
